@@ -25,3 +25,48 @@ package expressions
 //@ func expElvis [C07]
 //@   scope functional
 //@   at call ConvertGoType#1 assert arg0 == left.Value && arg1 == "bool"
+
+// ---- C20 / C19: parser cursor safety and termination ------------------------------------------------
+// Common shape: the cursor tree.charPos stays within [−1, len(expression)]; every scanning loop
+// strictly advances it (decreases len − charPos); every index/slice expression is in range.
+
+//@ func (*ParserT).prevChar [C20 C19]
+//@   requires tree != nil && tree.charPos <= len(tree.expression)
+//@   modifies nothing
+//@ func (*ParserT).currentChar [C20 C19]
+//@   requires tree != nil && 0 <= tree.charPos
+//@   modifies nothing
+//@ func (*ParserT).nextChar [C20 C19]
+//@   requires tree != nil && -1 <= tree.charPos
+//@   modifies nothing
+//@ func (*ParserT).crLf [C20 C19]
+//@   requires tree != nil
+//@   modifies tree.endRow, tree.startCol, tree.endCol
+//@ func isBareChar [C20 C19]
+//@   modifies nothing
+
+//@ func (*ParserT).parseBareword [C20 C19]
+//@   requires tree != nil && 0 <= tree.charPos && tree.charPos < len(tree.expression)
+//@   modifies tree.charPos
+//@   ensures old(tree.charPos) < tree.charPos && tree.charPos <= len(tree.expression)
+//@   loop 1 invariant tree.charPos + 1 <= i && i <= len(tree.expression)
+//@   loop 1 decreases len(tree.expression) - i
+
+//@ func (*ParserT).parseComment [C20 C19]
+//@   requires tree != nil && -1 <= tree.charPos
+//@   ensures old(tree.charPos) <= tree.charPos && tree.charPos < len(tree.expression) || tree.charPos == old(tree.charPos)
+//@   loop 1 invariant 0 <= tree.charPos && old(tree.charPos) < tree.charPos
+//@   loop 1 invariant imp(old(tree.charPos)+1 <= len(tree.expression), tree.charPos <= len(tree.expression))
+//@   loop 1 invariant imp(old(tree.charPos)+1 > len(tree.expression), tree.charPos == old(tree.charPos)+1)
+//@   loop 1 decreases len(tree.expression) - tree.charPos
+
+// raiseError always produces an error (abstracted: only that fact is used by callers).
+//@ func raiseError [C20] trusted
+//@   modifies nothing
+//@   ensures result != nil
+
+//@ func (*ParserT).parseCommentMultiLine [C20 C19]
+//@   requires tree != nil && -2 <= tree.charPos
+//@   ensures imp(result == nil, old(tree.charPos) < tree.charPos && tree.charPos <= len(tree.expression))
+//@   loop 1 invariant 0 <= tree.charPos && old(tree.charPos) < tree.charPos
+//@   loop 1 decreases len(tree.expression) - tree.charPos
